@@ -312,7 +312,7 @@ func (g *G) Iface(depth int, label string, jsonable bool) *Iface {
 		kinds = append(kinds, "list", "map", "list", "map")
 	}
 	if !jsonable {
-		kinds = append(kinds, "unmarshalable", "objmarshaler", "rawmsg")
+		kinds = append(kinds, "unmarshalable", "objmarshaler", "rawmsg", "badmarshal")
 	}
 	if g.compositeOnly {
 		// Fields() handles string/int64/float64/bool/nil/RawMessage natively: only
@@ -320,7 +320,7 @@ func (g *G) Iface(depth int, label string, jsonable bool) *Iface {
 		g.compositeOnly = false
 		kinds = []string{"struct", "ptrnil", "list", "map", "anon", "anonptr", "anonslice"}
 		if !jsonable {
-			kinds = append(kinds, "unmarshalable", "objmarshaler")
+			kinds = append(kinds, "unmarshalable", "objmarshaler", "badmarshal")
 		}
 	}
 	k := rapid.SampledFrom(kinds).Draw(t, label+".k")
@@ -340,6 +340,8 @@ func (g *G) Iface(depth int, label string, jsonable bool) *Iface {
 		}
 	case "bool":
 		i.B = rapid.Bool().Draw(t, label+".b")
+	case "badmarshal":
+		i.S = g.Bytes(label + ".errtext")
 	case "anon", "anonptr", "anonslice":
 		i.S = g.Bytes(label + ".s")
 		i.I = g.Int(64, label+".i")
@@ -705,6 +707,7 @@ func (g *G) Settings() Settings {
 	s.ErrMarshal = rapid.SampledFrom([]string{"", "", "", "string", "obj", "othererr", "nil", "struct"}).Draw(t, "set.em")
 	s.StackMarshal = rapid.SampledFrom([]string{"", "", "nil", "string", "error", "obj", "frames", "nilerr"}).Draw(t, "set.sm")
 	s.IfaceMarshal = rapid.SampledFrom([]string{"", "", "stdjson", "wrap"}).Draw(t, "set.im")
+	s.LevelMarshal = rapid.SampledFrom([]string{"", "", "", "", "upper", "total"}).Draw(t, "set.lm")
 	if rapid.IntRange(0, 5).Draw(t, "set.glow") == 0 {
 		s.GlobalLow = rapid.SampledFrom([]int{8, 8, 3, 128}).Draw(t, "set.glowv")
 	}
